@@ -765,6 +765,7 @@ protected:
       std::size_t contentLength = 0;
       bool isChunked = false;
       bool haveContentLength = false;
+      bool haveTransferEncoding = false;
 
       // Parse headers
       std::istringstream headerStream(headerSection);
@@ -831,18 +832,51 @@ protected:
           }
           else if (key == "transfer-encoding")
           {
-            // Convert value to lowercase for comparison
+            // RFC 9112 6.1/6.3: the body is chunked iff the FINAL transfer coding
+            // is exactly "chunked". A substring test framed "notchunkedy" as
+            // chunked, and any other coding ("gzip", "chunked, gzip") fell through
+            // to the Content-Length / no-body path, so the body bytes were parsed as
+            // the NEXT request (request smuggling). Remember the final coding of
+            // the last Transfer-Encoding line; anything but "chunked" is rejected
+            // below like every other invalid length.
             std::transform(value.begin(), value.end(), value.begin(), ::tolower);
-            if (value.find("chunked") != std::string::npos)
+            haveTransferEncoding = true;
+            std::string finalCoding;
+            std::size_t tokStart = 0;
+            while (tokStart <= value.size())
             {
-              isChunked = true;
+              std::size_t comma = value.find(',', tokStart);
+              std::size_t tokEnd = (comma == std::string::npos) ? value.size() : comma;
+              std::size_t a = value.find_first_not_of(" \t", tokStart);
+              if (a != std::string::npos && a < tokEnd)
+              {
+                std::size_t b = value.find_last_not_of(" \t", tokEnd - 1);
+                finalCoding = value.substr(a, b - a + 1);
+              }
+              if (comma == std::string::npos)
+              {
+                break;
+              }
+              tokStart = comma + 1;
             }
+            isChunked = (finalCoding == "chunked");
           }
         }
       }
 
       std::size_t requestEndPos;
       std::string decodedBody; // chunked requests only: the chunk data, concatenated
+
+      if (haveTransferEncoding && !isChunked)
+      {
+        // A transfer coding this server cannot decode delimits the body in a way
+        // it cannot follow: close instead of guessing where the message ends.
+        iora::core::Logger::error("HttpServer: unsupported Transfer-Encoding (final coding is not "
+                                  "chunked) for session " + std::to_string(sid) +
+                                  " - closing connection");
+        closeSession(sid);
+        return;
+      }
 
       if (isChunked && haveContentLength)
       {
